@@ -48,8 +48,15 @@ func setSliceHeader(slicePtr unsafe.Pointer, arrayPtr unsafe.Pointer, length int
 }
 
 func unsafeToSlice(array interface{}, count int) unsafe.Pointer {
+	data := reflect2.PtrOf(array)
+	if t := reflect2.TypeOf(array); t.Kind() == reflect.Array && t.LikePtr() {
+		// an array of one pointer-like element is held in the interface word
+		// itself, not behind a pointer
+		word := data
+		data = unsafe.Pointer(&word)
+	}
 	return unsafe.Pointer(&sliceHeader{
-		Data: reflect2.PtrOf(array),
+		Data: data,
 		Len:  count,
 		Cap:  count,
 	})
